@@ -84,6 +84,20 @@ def legal264 : Item → Bool
   | .agg _ _ ns => !ns.isEmpty && ns.all (fun n => nalOk264 n && n.length < 65536)
   | .frag _ _ n cuts => nalOk264 n && cutsOk cuts (n.length - 1)
 
+/-- as `nalOk264`, with the F bit free: RFC 6184 §5.3 lets a sender / middlebox set
+    forbidden_zero_bit to flag a damaged unit; the unit is still packetised (the FU indicator
+    carries F) and must come out byte-exact -/
+def nalOk264F (n : Bytes) : Bool :=
+  match n with
+  | [] => false
+  | b :: _ => (b &&& 0x1f) ≥ 1 && (b &&& 0x1f) ≤ 23
+
+/-- `legal264` with the F bit free -/
+def legal264F : Item → Bool
+  | .single _ _ n => nalOk264F n
+  | .agg _ _ ns => !ns.isEmpty && ns.all (fun n => nalOk264F n && n.length < 65536)
+  | .frag _ _ n cuts => nalOk264F n && cutsOk cuts (n.length - 1)
+
 /-! ### H.265 (RFC 7798, no DONL) -/
 
 def layerId (h0 h1 : UInt8) : UInt8 := ((h0 &&& 1) <<< (5 : UInt8)) ||| (h1 >>> (3 : UInt8))
